@@ -2090,6 +2090,14 @@ class BuiltinsMixin(object):
         if name in ('keys', 'values', 'items'):
             return [(path, App('dictview', Const(name), recv))]
         if name == 'get' and len(args) in (1, 2) and \
+                isinstance(recv, App) and recv.op == 'alphabet' and \
+                isinstance(args[0], Const):
+            # alphabet.get(name): the class table of the language
+            al = self.prog.alphabet(recv.args[0].v)
+            if args[0].v in al:
+                return [(path, CRef(al[args[0].v]))]
+            return [(path, args[1] if len(args) == 2 else Const(None))]
+        if name == 'get' and len(args) in (1, 2) and \
                 isinstance(recv, (Sym, App)):
             return [(path, App('dictget', recv, *args))]
         if name == '__iter__':
